@@ -222,7 +222,9 @@ def oracle(case, obs):
         if len(res) != n or len(set(res)) != len(res) or any(c not in cands for c in res):
             out.append(('result_shape', f'{res} for {n} seats among {len(cands)} candidates'))
     V = sum(Fraction(w) for _, w in case['votes'])
-    if n == 1:
+    # the majority clause needs a quota of at least half the votes (true of droop / hare / hagenbach_bischoff, the quotas of the
+    # quantifier); a smaller constant quota lets several candidates qualify for the one seat
+    if n == 1 and (want_q is None or want_q >= V / 2):
         for c, t in _first_pref_totals(case['votes']).items():
             if t > V / 2 and res != [c]:
                 out.append(('majority_first_choice', f'{c} is first on {t} of {V} ballots, elected {res}'))
